@@ -321,8 +321,8 @@ impl Prop for C09 {
             }
         }
         // planar: wide lines to reach the 16.. and 32.. run escapes (constant and patterned images)
-        for (w, h) in [(20usize, 1usize), (40, 2), (47, 1), (48, 1), (64, 2), (5, 3)] {
-            for pat in 0..4u8 {
+        for (w, h) in [(20usize, 1usize), (40, 2), (47, 1), (48, 1), (64, 2), (5, 3), (46, 2), (47, 4), (48, 3), (93, 1), (94, 2), (95, 2), (141, 1), (16, 2), (17, 2), (32, 2), (33, 1)] {
+            for pat in 0..6u8 {
                 let mut bgra = vec![0u8; w * h * 4];
                 for p in 0..w * h {
                     for ch in 0..4 {
@@ -330,7 +330,10 @@ impl Prop for C09 {
                             0 => 0x33,
                             1 => (p / 7) as u8 * 3 + ch as u8,
                             2 => if p % w < 3 { p as u8 } else { 0x80 },
-                            _ => (p as u8).wrapping_mul(31) ^ ch as u8,
+                            3 => (p as u8).wrapping_mul(31) ^ ch as u8,
+                            // flat images: every scan line of every plane is one maximal run
+                            4 => 0,
+                            _ => if ch == 3 { 0xFF } else { 0 },
                         };
                     }
                 }
@@ -393,7 +396,7 @@ impl Prop for C09 {
         }
     }
     fn rule(&self) -> String {
-        "cases are encodings. [rle16] every sequence of <=3 interleaved-RLE orders (<=4 for shapes up to 4 pixels in thorough) over {all 12 order kinds} x {short, extended, mega-mega forms} x {every run length that fits} x palette {0,0xFFFF,0x1234} that the reference decoder maps onto a complete image of the shape (shapes up to 6 px; larger shapes with <=2 orders to reach extended forms / special orders); [planar32] every plane vector over {0,1,7F,80,FF} for shapes up to 2x2/4x1 x every segmentation of every scan line (one line varied at a time, plus all together), and wide lines for the long-run escapes; [rle16-encoded] 14 structured image patterns x 8 sizes up to 64x64 x 10 deterministic strategies of a greedy reference encoder (order kinds allowed, preferred spelling, run-length cap); [raw16]/[raw32] bottom-up uncompressed layouts; [widen565] all 65536 colours. Non-trivial: >=2 orders or a non-default segmentation or >=2 rows.".into()
+        "cases are encodings. [rle16] every sequence of <=3 interleaved-RLE orders (<=4 for shapes up to 4 pixels in thorough) over {all 12 order kinds} x {short, extended, mega-mega forms} x {every run length that fits} x palette {0,0xFFFF,0x1234} that the reference decoder maps onto a complete image of the shape (shapes up to 6 px; larger shapes with <=2 orders to reach extended forms / special orders); [planar32] every plane vector over {0,1,7F,80,FF} for shapes up to 2x2/4x1 x every segmentation of every scan line (one line varied at a time, plus all together), and wide lines (widths 16..141 around the 16/32/47-pixel run escapes and their multiples; constant, flat-zero, opaque-black and patterned images x 8 segmentation strategies) for the long-run escapes; [rle16-encoded] 14 structured image patterns x 8 sizes up to 64x64 x 10 deterministic strategies of a greedy reference encoder (order kinds allowed, preferred spelling, run-length cap); [raw16]/[raw32] bottom-up uncompressed layouts; [widen565] all 65536 colours. Non-trivial: >=2 orders or a non-default segmentation or >=2 rows.".into()
     }
     fn assumptions(&self) -> Vec<String> {
         vec![
